@@ -763,10 +763,16 @@ def reference_circuit(fn: Fn, compiler):
 
     qf = QlassF.from_function(fn.src(), to_compile=True, compiler=compiler)
     qc = qf.circuit()
-    r = dict(name=qc.name, qubits=list(qc.qubit_map.keys()), qmap=[[k, v] for k, v in qc.qubit_map.items()], n=qc.num_qubits,
+    def qname(i):
+        # one formal per qubit, in index order: the last name mapped to the qubit, q<i> if it has none
+        names = [k for k, v in qc.qubit_map.items() if v == i]
+        return names[-1] if names else f"q{i}"
+
+    r = dict(name=qc.name, qubits=[qname(i) for i in range(qc.num_qubits)],
+             qmap=[[k, v] for k, v in qc.qubit_map.items()], n=qc.num_qubits,
              gates=C.qc_to_json(qc),
              body=[(g.__name__.lower(),
-                    [qc.get_key_by_index(w) for w in ws]) for g, ws, p in qc.gates
+                    [qname(w) for w in ws]) for g, ws, p in qc.gates
                    if type(g).__name__ not in ("NopGate", "Barrier")])
     _CIRC_CACHE[key] = r
     return r
